@@ -427,3 +427,344 @@ Proof.
   - cbn [fst snd stopped mbase with_mbase win base with_base wdel cps ups wpending].
     repeat split; try reflexivity; assumption.
 Qed.
+
+(** * Part B: what survives arbitrary overtaking *)
+
+(** callers may be anywhere inside a split put, delete or read; there is no put_or_update window, no worker window and
+    no shutdown in stages (those break [Inv] for real: known findings D11 / D12, and a half-cleared cache) *)
+Definition cp_plain (p : cpend) : Prop :=
+  match p with
+  | PEntered (RUpsert _ _ _ _ _) | PEntered RShutdown | PShut _ => False
+  | PPutChecked _ _ w _ => 0 < w
+  | _ => True
+  end.
+
+Record MInv (cfg : config) (ms : mstate) : Prop := {
+  mi_inv : Inv cfg (mbase ms);
+  mi_ups : ups (win ms) = [];
+  mi_wp : wpending (win ms) = None;
+  mi_wd : wdel ms = None;
+  mi_cps : forall tid p, alookup tid (cps ms) = Some p -> cp_plain p
+}.
+
+Definition plain_micro (ev : mevent) : Prop :=
+  match ev with
+  | MWin (WBase e) => valid_event e
+  | MEnter _ r _ => valid_request r /\ (forall k v w ttl rm, r <> RUpsert k v w ttl rm) /\ r <> RShutdown
+  | MStepC _ _ => True
+  | _ => False
+  end.
+
+Lemma cps_aset_plain : forall (l : list (Z * cpend)) tid p,
+  (forall t q, alookup t l = Some q -> cp_plain q) -> cp_plain p ->
+  forall t q, alookup t (aset tid p l) = Some q -> cp_plain q.
+Proof.
+  intros l tid p Hl Hp t q H. rewrite alookup_aset in H. destruct (t =? tid).
+  - inversion H; subst; exact Hp.
+  - eapply Hl; exact H.
+Qed.
+
+Lemma cps_aremove_plain : forall (l : list (Z * cpend)) tid,
+  (forall t q, alookup t l = Some q -> cp_plain q) ->
+  forall t q, alookup t (aremove tid l) = Some q -> cp_plain q.
+Proof.
+  intros l tid Hl t q H. rewrite alookup_aremove in H. destruct (t =? tid); [discriminate|]. eapply Hl; exact H.
+Qed.
+
+Lemma MInv_set_cp : forall cfg ms s tid p, MInv cfg ms -> Inv cfg s -> cp_plain p -> MInv cfg (set_cp ms s tid p).
+Proof.
+  intros cfg ms s tid p [HI Hu Hwp Hwd Hc] HIs Hp. constructor; try assumption.
+  cbn [cps set_cp]. apply cps_aset_plain; assumption.
+Qed.
+
+Lemma MInv_end_cp : forall cfg ms s tid, MInv cfg ms -> Inv cfg s -> MInv cfg (end_cp ms s tid).
+Proof.
+  intros cfg ms s tid [HI Hu Hwp Hwd Hc] HIs. constructor; try assumption.
+  cbn [cps end_cp]. apply cps_aremove_plain; assumption.
+Qed.
+
+Lemma MInv_with_mbase : forall cfg ms s, MInv cfg ms -> Inv cfg s -> MInv cfg (with_mbase ms s).
+Proof. intros cfg ms s [HI Hu Hwp Hwd Hc] HIs. constructor; assumption. Qed.
+
+Lemma upd_st_frame : forall f n s, frameR s (upd_st f n s).
+Proof. intros f n s. unfold frameR, upd_st. repeat split; reflexivity. Qed.
+
+Lemma park_inv : forall cfg tid c s, Inv cfg s -> cmd_weight_ok c -> cmd_fresh s c -> Inv cfg (park tid c s).
+Proof.
+  intros cfg tid c s HI Hw Hf. apply (Inv_park cfg s _ tid (KSend c) HI); try reflexivity.
+  intros c' Hc'. inversion Hc'; subst. split; assumption.
+Qed.
+
+Lemma soft_mark_inv : forall cfg k s, Inv cfg s -> Inv cfg (soft_mark k s).
+Proof.
+  intros cfg k s HI. unfold soft_mark. destruct (alookup k (store s)) as [e|] eqn:E; [|exact HI].
+  apply soft_delete_inv; assumption.
+Qed.
+
+Lemma psend_inv : forall cfg tid c s, Inv cfg s -> alookup tid (blocked s) = Some (KSend c) ->
+  Inv cfg (fst (do_send cfg tid c (set_blocked s (aremove tid (blocked s))))).
+Proof.
+  intros cfg tid c s HI Hlk.
+  assert (HI0 : Inv cfg (set_blocked s (aremove tid (blocked s)))).
+  { apply (Inv_unpark cfg s _ tid HI); reflexivity. }
+  destruct (unparked_cmd_fresh cfg s (set_blocked s (aremove tid (blocked s))) tid c HI
+              eq_refl eq_refl eq_refl eq_refl eq_refl Hlk) as [Hwok Hfr].
+  apply do_send_inv; assumption.
+Qed.
+
+Lemma mstepc_minv : forall cfg ms tid idxs, MInv cfg ms -> MInv cfg (fst (mstepc cfg ms tid idxs)).
+Proof.
+  intros cfg ms tid idxs HM. pose proof (mi_inv cfg ms HM) as HI.
+  unfold mstepc. destruct (alookup tid (cps ms)) as [p|] eqn:Hp; [|exact HM].
+  pose proof (mi_cps cfg ms HM tid p Hp) as Hpl.
+  destruct p as [r|k v w ttl| |h obs|n].
+  - destruct r; try exact HM; try contradiction.
+    + unfold put_check. destruct (weight_calc (c_wcalc cfg) k v false <=? 0) eqn:Hw; [apply MInv_end_cp; assumption|].
+      destruct (amem k (store (mbase ms))); [apply MInv_end_cp; assumption|].
+      apply MInv_set_cp; try assumption. cbn [cp_plain]. lia.
+    + unfold put_check. destruct (w <=? 0) eqn:Hw; [apply MInv_end_cp; assumption|].
+      destruct (amem k (store (mbase ms))); [apply MInv_end_cp; assumption|].
+      apply MInv_set_cp; try assumption. cbn [cp_plain]. lia.
+    + unfold put_check. destruct (weight_calc (c_wcalc cfg) k v true <=? 0) eqn:Hw; [apply MInv_end_cp; assumption|].
+      destruct (amem k (store (mbase ms))); [apply MInv_end_cp; assumption|].
+      apply MInv_set_cp; try assumption. cbn [cp_plain]. lia.
+    + unfold put_check. destruct (w <=? 0) eqn:Hw; [apply MInv_end_cp; assumption|].
+      destruct (amem k (store (mbase ms))); [apply MInv_end_cp; assumption|].
+      apply MInv_set_cp; try assumption. cbn [cp_plain]. lia.
+    + cbn [fst]. apply MInv_set_cp; [exact HM| |exact I].
+      apply park_inv; [apply soft_mark_inv; exact HI|exact I|apply cmd_fresh_noput; reflexivity].
+    + unfold read_lookup. destruct (lookup_alive k (mbase ms)); cbn [fst].
+      * apply MInv_set_cp; [exact HM| |exact I]. eapply frameR_inv; [apply upd_st_frame|exact HI].
+      * apply MInv_end_cp; [exact HM|]. eapply frameR_inv; [apply upd_st_frame|exact HI].
+    + unfold read_body. destruct (read_one cfg k idxs (mbase ms)) as [[[v s'] [|i l]]|] eqn:Hr; cbn [fst];
+        apply MInv_end_cp; try assumption.
+      eapply frameR_inv; [eapply read_one_frame; exact Hr|exact HI].
+    + unfold read_lookup. destruct (lookup_alive k (mbase ms)); cbn [fst].
+      * apply MInv_set_cp; [exact HM| |exact I]. eapply frameR_inv; [apply upd_st_frame|exact HI].
+      * apply MInv_end_cp; [exact HM|]. eapply frameR_inv; [apply upd_st_frame|exact HI].
+    + unfold read_body. destruct (read_one cfg k idxs (mbase ms)) as [[[v s'] [|i l]]|] eqn:Hr; cbn [fst];
+        apply MInv_end_cp; try assumption.
+      eapply frameR_inv; [eapply read_one_frame; exact Hr|exact HI].
+  - cbn [cp_plain] in Hpl. cbv zeta. cbn [fst]. apply MInv_set_cp; [exact HM| |exact I].
+    destruct ttl as [t|]; apply park_inv; try (apply Inv_bump; exact HI); try (cbn [cmd_weight_ok]; exact Hpl);
+      apply (next_id_fresh cfg (mbase ms)); try exact HI; reflexivity.
+  - destruct (alookup tid (blocked (mbase ms))) as [[c| |]|] eqn:Hlk; try exact HM.
+    pose proof (psend_inv cfg tid c (mbase ms) HI Hlk) as HI'.
+    destruct (do_send cfg tid c (set_blocked (mbase ms) (aremove tid (blocked (mbase ms))))) as [s' ret].
+    cbn [fst] in *. apply MInv_end_cp; assumption.
+  - destruct idxs as [|i [|j l]]; try exact HM.
+    destruct (pool_add cfg i h (mbase ms)) as [s'|] eqn:Hpa; [|exact HM].
+    cbn [fst]. apply MInv_end_cp; [exact HM|]. eapply frameR_inv; [eapply pool_add_frame; exact Hpa|exact HI].
+  - contradiction.
+Qed.
+
+Lemma menter_minv : forall cfg ms tid r idxs,
+  MInv cfg ms -> (forall k v w ttl rm, r <> RUpsert k v w ttl rm) -> r <> RShutdown ->
+  MInv cfg (fst (menter cfg ms tid r idxs)).
+Proof.
+  intros cfg ms tid r idxs HM Hnu Hns. pose proof (mi_inv cfg ms HM) as HI.
+  unfold menter. destruct (negb (caller_free ms tid)); [exact HM|].
+  destruct (shut (mbase ms) || negb (micro_request r) || early_panic cfg r).
+  - pose proof (call_inv cfg tid r idxs (mbase ms) HI) as HI'.
+    destruct (call cfg tid r idxs (mbase ms)) as [s' ret]. cbn [fst] in *. apply MInv_with_mbase; assumption.
+  - destruct r; try (cbn [fst]; apply MInv_set_cp; [exact HM|exact HI|exact I]).
+    + exfalso. eapply Hnu. reflexivity.
+    + exfalso. apply Hns. reflexivity.
+Qed.
+
+Lemma mwin_base_eq : forall cfg ms e, ups (win ms) = [] -> wpending (win ms) = None ->
+  mstep cfg ms (MWin (WBase e)) =
+  if mwin_enabled ms (WBase e)
+  then (with_mbase ms (fst (step cfg (mbase ms) e)), snd (step cfg (mbase ms) e))
+  else (ms, [6]).
+Proof.
+  intros cfg ms e Hu Hp. unfold mstep. destruct (mwin_enabled ms (WBase e)); [|reflexivity].
+  rewrite (wstep_base_enabled cfg (win ms) e Hu Hp). reflexivity.
+Qed.
+
+(* STATEMENT: the core invariant survives every interleaving of the micro steps of puts, deletes and reads with each
+   other and with whole events of the atomic model (worker commands, sweeps, consumer batches, atomic calls) *)
+Lemma minv_step : forall cfg ms ev, wf_config cfg -> MInv cfg ms -> plain_micro ev ->
+  worker (mbase (fst (mstep cfg ms ev))) <> Dead -> MInv cfg (fst (mstep cfg ms ev)).
+Proof.
+  intros cfg ms ev Hcfg HM Hev Hnd. destruct ev as [e|tid r idxs|tid idxs|orc|]; try contradiction.
+  - destruct e as [b| | | |]; try contradiction.
+    rewrite (mwin_base_eq cfg ms b (mi_ups cfg ms HM) (mi_wp cfg ms HM)) in *.
+    destruct (mwin_enabled ms (WBase b)); [|exact HM]. cbn [fst] in *.
+    apply MInv_with_mbase; [exact HM|].
+    apply (inv_step cfg (mbase ms) b Hcfg (mi_inv cfg ms HM) Hev). exact Hnd.
+  - destruct Hev as (_ & Hnu & Hns). apply menter_minv; assumption.
+  - apply mstepc_minv. exact HM.
+Qed.
+
+Lemma minv_init : forall cfg, wf_config cfg -> MInv cfg (minit cfg).
+Proof.
+  intros cfg Hcfg. constructor; try reflexivity.
+  - apply inv_init. exact Hcfg.
+  - intros tid p H. discriminate.
+Qed.
+
+(** a dead worker stays dead *)
+Lemma mstepc_worker : forall cfg ms tid idxs, (forall t p, alookup t (cps ms) = Some p -> cp_plain p) ->
+  worker (mbase (fst (mstepc cfg ms tid idxs))) = worker (mbase ms).
+Proof.
+  intros cfg ms tid idxs HM.
+  unfold mstepc. destruct (alookup tid (cps ms)) as [p|] eqn:Hp; [|reflexivity].
+  pose proof (HM tid p Hp) as Hpl.
+  destruct p as [r|k v w ttl| |h obs|n].
+  - destruct r; try reflexivity; try contradiction;
+      try (unfold put_check; repeat match goal with |- context [if ?b then _ else _] => destruct b end; reflexivity).
+    + unfold soft_mark. destruct (alookup k (store (mbase ms))); reflexivity.
+    + unfold read_lookup. destruct (lookup_alive k (mbase ms)); reflexivity.
+    + unfold read_body. destruct (read_one cfg k idxs (mbase ms)) as [[[v s'] [|i l]]|] eqn:Hr; try reflexivity.
+      cbn [fst mbase end_cp win with_base base]. apply (frameR_roles _ _ (read_one_frame cfg k idxs _ _ _ _ Hr)).
+    + unfold read_lookup. destruct (lookup_alive k (mbase ms)); reflexivity.
+    + unfold read_body. destruct (read_one cfg k idxs (mbase ms)) as [[[v s'] [|i l]]|] eqn:Hr; try reflexivity.
+      cbn [fst mbase end_cp win with_base base]. apply (frameR_roles _ _ (read_one_frame cfg k idxs _ _ _ _ Hr)).
+  - reflexivity.
+  - destruct (alookup tid (blocked (mbase ms))) as [[c| |]|]; try reflexivity.
+    pose proof (do_send_roles cfg tid c (set_blocked (mbase ms) (aremove tid (blocked (mbase ms))))) as (R & _).
+    destruct (do_send cfg tid c (set_blocked (mbase ms) (aremove tid (blocked (mbase ms))))) as [s' ret].
+    cbn [fst] in *. exact R.
+  - destruct idxs as [|i [|j l]]; try reflexivity.
+    destruct (pool_add cfg i h (mbase ms)) as [s'|] eqn:Hpa; [|reflexivity].
+    cbn [fst mbase end_cp win with_base base]. apply (frameR_roles _ _ (pool_add_frame cfg i h _ _ Hpa)).
+  - contradiction.
+Qed.
+
+Lemma menter_worker : forall cfg ms tid r idxs, r <> RShutdown ->
+  worker (mbase (fst (menter cfg ms tid r idxs))) = worker (mbase ms).
+Proof.
+  intros cfg ms tid r idxs Hns. unfold menter. destruct (negb (caller_free ms tid)); [reflexivity|].
+  destruct (shut (mbase ms) || negb (micro_request r) || early_panic cfg r).
+  - pose proof (call_roles cfg tid r idxs (mbase ms)) as (R & _).
+    destruct (call cfg tid r idxs (mbase ms)) as [s' ret]. cbn [fst] in *. exact R.
+  - destruct r; reflexivity.
+Qed.
+
+(** the part of [MInv] that does not depend on the worker being alive *)
+Record MShape (ms : mstate) : Prop := {
+  sh_ups : ups (win ms) = [];
+  sh_wp : wpending (win ms) = None;
+  sh_wd : wdel ms = None;
+  sh_cps : forall tid p, alookup tid (cps ms) = Some p -> cp_plain p
+}.
+
+Lemma MInv_shape : forall cfg ms, MInv cfg ms -> MShape ms.
+Proof. intros cfg ms [HI Hu Hp Hw Hc]. constructor; assumption. Qed.
+Lemma MInv_intro : forall cfg ms, MShape ms -> Inv cfg (mbase ms) -> MInv cfg ms.
+Proof. intros cfg ms [Hu Hp Hw Hc] HI. constructor; assumption. Qed.
+
+Inductive cform (ms : mstate) (tid : Z) : mstate -> Prop :=
+| F_same : cform ms tid ms
+| F_set : forall s p, cp_plain p -> cform ms tid (set_cp ms s tid p)
+| F_end : forall s, cform ms tid (end_cp ms s tid).
+
+Lemma cform_shape : forall ms tid ms', MShape ms -> cform ms tid ms' -> MShape ms'.
+Proof.
+  intros ms tid ms' [Hu Hp Hw Hc] F. destruct F as [|s p Hpl|s].
+  - constructor; assumption.
+  - constructor; try assumption. cbn [cps set_cp]. apply cps_aset_plain; assumption.
+  - constructor; try assumption. cbn [cps end_cp]. apply cps_aremove_plain; assumption.
+Qed.
+
+Lemma mstepc_form : forall cfg ms tid idxs, (forall t p, alookup t (cps ms) = Some p -> cp_plain p) ->
+  cform ms tid (fst (mstepc cfg ms tid idxs)).
+Proof.
+  intros cfg ms tid idxs HM.
+  unfold mstepc. destruct (alookup tid (cps ms)) as [p|] eqn:Hp; [|constructor].
+  pose proof (HM tid p Hp) as Hpl.
+  destruct p as [r|k v w ttl| |h obs|n].
+  - destruct r; try constructor; try contradiction.
+    + unfold put_check. destruct (weight_calc (c_wcalc cfg) k v false <=? 0) eqn:Hw; [constructor|].
+      destruct (amem k (store (mbase ms))); constructor. cbn [cp_plain]. lia.
+    + unfold put_check. destruct (w <=? 0) eqn:Hw; [constructor|].
+      destruct (amem k (store (mbase ms))); constructor. cbn [cp_plain]. lia.
+    + unfold put_check. destruct (weight_calc (c_wcalc cfg) k v true <=? 0) eqn:Hw; [constructor|].
+      destruct (amem k (store (mbase ms))); constructor. cbn [cp_plain]. lia.
+    + unfold put_check. destruct (w <=? 0) eqn:Hw; [constructor|].
+      destruct (amem k (store (mbase ms))); constructor. cbn [cp_plain]. lia.
+    + exact I.
+    + unfold read_lookup. destruct (lookup_alive k (mbase ms)); constructor. exact I.
+    + destruct (read_body cfg k (fun v => v) idxs (mbase ms)). constructor.
+    + unfold read_lookup. destruct (lookup_alive k (mbase ms)); constructor. exact I.
+    + destruct (read_body cfg k mapped idxs (mbase ms)). constructor.
+  - constructor. exact I.
+  - destruct (alookup tid (blocked (mbase ms))) as [[c| |]|]; try constructor.
+    destruct (do_send cfg tid c (set_blocked (mbase ms) (aremove tid (blocked (mbase ms))))). constructor.
+  - destruct idxs as [|i [|j l]]; try constructor.
+    destruct (pool_add cfg i h (mbase ms)); constructor.
+  - contradiction.
+Qed.
+
+Lemma mshape_step : forall cfg ms ev, MShape ms -> plain_micro ev -> MShape (fst (mstep cfg ms ev)).
+Proof.
+  intros cfg ms ev HS Hev. destruct ev as [e|tid r idxs|tid idxs|orc|]; try contradiction.
+  - destruct e as [b| | | |]; try contradiction.
+    rewrite (mwin_base_eq cfg ms b (sh_ups ms HS) (sh_wp ms HS)).
+    destruct (mwin_enabled ms (WBase b)); [|exact HS]. destruct HS as [Hu Hp Hw Hc]. constructor; assumption.
+  - destruct Hev as (_ & Hnu & Hns). cbn [mstep]. unfold menter.
+    destruct (negb (caller_free ms tid)); [exact HS|].
+    destruct (shut (mbase ms) || negb (micro_request r) || early_panic cfg r).
+    + destruct (call cfg tid r idxs (mbase ms)) as [s' ret]. destruct HS as [Hu Hp Hw Hc]. constructor; assumption.
+    + destruct r; try (cbn [fst]; apply (cform_shape ms tid); [exact HS|constructor; exact I]).
+      * exfalso. eapply Hnu. reflexivity.
+      * exfalso. apply Hns. reflexivity.
+  - cbn [mstep]. apply (cform_shape ms tid); [exact HS|]. apply mstepc_form. exact (sh_cps ms HS).
+Qed.
+
+Lemma mdead_absorbing : forall cfg ms ev, MShape ms -> plain_micro ev ->
+  worker (mbase ms) = Dead -> worker (mbase (fst (mstep cfg ms ev))) = Dead.
+Proof.
+  intros cfg ms ev HM Hev Hd. destruct ev as [e|tid r idxs|tid idxs|orc|]; try contradiction.
+  - destruct e as [b| | | |]; try contradiction.
+    rewrite (mwin_base_eq cfg ms b (sh_ups ms HM) (sh_wp ms HM)).
+    destruct (mwin_enabled ms (WBase b)); [|exact Hd]. cbn [fst mbase with_mbase win with_base base].
+    apply (dead_absorbing cfg (mbase ms) b Hd).
+  - destruct Hev as (_ & _ & Hns). cbn [mstep]. rewrite menter_worker by exact Hns. exact Hd.
+  - cbn [mstep]. rewrite mstepc_worker by exact (sh_cps ms HM). exact Hd.
+Qed.
+
+Lemma mrun_dead : forall cfg evs ms, MShape ms -> Forall plain_micro evs ->
+  worker (mbase ms) = Dead -> worker (mbase (mrun_from cfg ms evs)) = Dead.
+Proof.
+  intros cfg evs. induction evs as [|ev t IH]; intros ms HS Hall Hd; [exact Hd|].
+  inversion Hall as [|x xs Hev Ht]; subst. unfold mrun_from in *. cbn [fold_left].
+  apply IH; [apply mshape_step; assumption|exact Ht|apply mdead_absorbing; assumption].
+Qed.
+
+Lemma minv_run_from : forall cfg evs ms, wf_config cfg -> MInv cfg ms -> Forall plain_micro evs ->
+  worker (mbase (mrun_from cfg ms evs)) <> Dead -> MInv cfg (mrun_from cfg ms evs).
+Proof.
+  intros cfg evs. induction evs as [|ev t IH]; intros ms Hcfg HM Hall Hnd; [exact HM|].
+  inversion Hall as [|x xs Hev Ht]; subst. unfold mrun_from in *. cbn [fold_left] in *.
+  apply IH; try assumption.
+  apply minv_step; try assumption.
+  intros Hd. apply Hnd. apply (mrun_dead cfg t); [|exact Ht|exact Hd].
+  apply mshape_step; [apply (MInv_shape cfg); exact HM|exact Hev].
+Qed.
+
+(* STATEMENT: every state reached by any interleaving of micro steps of puts, deletes and reads with whole events of
+   the atomic model satisfies the core invariant, as long as the worker has not panicked *)
+Lemma minv_run : forall cfg evs, wf_config cfg -> Forall plain_micro evs ->
+  worker (mbase (mrun cfg evs)) <> Dead -> MInv cfg (mrun cfg evs).
+Proof.
+  intros cfg evs Hcfg Hall Hnd. apply minv_run_from; try assumption. apply minv_init. exact Hcfg.
+Qed.
+
+(* STATEMENT (C05 for every such interleaving): the total is exactly the sum of the charges of the keys the store holds,
+   every stored key is charged under its id and nothing else is *)
+Lemma micro_accounting_exact : forall cfg evs, wf_config cfg -> Forall plain_micro evs ->
+  let s := mbase (mrun cfg evs) in
+  worker s <> Dead ->
+  used s = weights_sum (weights s) /\
+  (forall k e, alookup k (store s) = Some e -> exists wk, alookup (e_id e) (weights s) = Some wk /\ w_key wk = k) /\
+  (forall id wk, alookup id (weights s) = Some wk -> exists e, alookup (w_key wk) (store s) = Some e /\ e_id e = id) /\
+  0 <= used s.
+Proof.
+  intros cfg evs Hcfg Hall s Hnd. subst s.
+  pose proof (mi_inv cfg _ (minv_run cfg evs Hcfg Hall Hnd)) as HI.
+  split; [exact (inv_used_sum cfg _ HI)|]. split; [exact (inv_store_charged cfg _ HI)|].
+  split; [exact (inv_charged_stored cfg _ HI)|]. exact (used_nonneg cfg _ HI).
+Qed.
+
